@@ -305,8 +305,8 @@ func (p *Policy) UnmarshalJSON(b []byte) error {
 	default:
 		return fmt.Errorf("unknown effect: %v", j.Effect)
 	}
-	for k, v := range j.Annotations {
-		p.unwrap().Annotate(types.Ident(k), types.String(v))
+	for _, k := range slices.Sorted(maps.Keys(j.Annotations)) {
+		p.unwrap().Annotate(types.Ident(k), types.String(j.Annotations[k]))
 	}
 	var err error
 	p.Principal, err = j.Principal.ToPrincipalResourceNode()
